@@ -29,6 +29,7 @@ import (
 	"math/big"
 	"net/http"
 	"os"
+	"runtime"
 	"sort"
 	"strconv"
 	"strings"
@@ -48,6 +49,8 @@ type c16Op struct {
 	key   string
 	value []byte
 	noop  bool // delete of a key that does not exist
+	paged bool // ListPage (tidy walks revoked/ with pages; a CRL build lists it in one go)
+	thread int // concurrent cases: 1 = the other request (and its helper goroutines), 2 = the revoke
 }
 
 type c16Store struct {
@@ -62,6 +65,82 @@ type c16Store struct {
 	writes  int
 	dead    bool
 	errInj  error
+
+	// concurrent cases: every storage operation is atomic (opMu), thread 1 can be parked before its parkAt-th operation
+	opMu    sync.Mutex
+	conc    bool
+	g2      int64 // goroutine id of the revoke
+	parkAt  int
+	n1      int
+	parked  chan struct{}
+	release chan struct{}
+	last2   time.Time
+}
+
+func c16Goid() int64 {
+	var buf [64]byte
+	n := runtime.Stack(buf[:], false)
+	f := strings.Fields(string(buf[:n]))
+	if len(f) < 2 {
+		return -1
+	}
+	id, _ := strconv.ParseInt(f[1], 10, 64)
+	return id
+}
+
+func (s *c16Store) armConc(parkAt int) {
+	s.arm(0, -1)
+	s.mu.Lock()
+	defer s.mu.Unlock()
+	s.conc, s.g2, s.parkAt, s.n1 = true, 0, parkAt, 0
+	s.parked, s.release = make(chan struct{}), make(chan struct{})
+	s.last2 = time.Now()
+}
+
+func (s *c16Store) disarmConc() []c16Op {
+	ops := s.disarm()
+	s.mu.Lock()
+	defer s.mu.Unlock()
+	s.conc = false
+	return ops
+}
+
+// gate tags the operation with its thread and parks thread 1 before its parkAt-th operation.
+func (s *c16Store) gate(key string) int {
+	s.mu.Lock()
+	if !s.conc || strings.HasPrefix(key, "acme/") {
+		s.mu.Unlock()
+		return 0
+	}
+	if c16Goid() == s.g2 {
+		s.last2 = time.Now()
+		s.mu.Unlock()
+		return 2
+	}
+	s.n1++
+	park := s.n1 == s.parkAt
+	parked, release := s.parked, s.release
+	s.mu.Unlock()
+	if park {
+		close(parked)
+		<-release
+	}
+	return 1
+}
+
+func (s *c16Store) do(ctx context.Context, op c16Op, f func() error) error {
+	op.thread = s.gate(op.key)
+	s.opMu.Lock()
+	defer s.opMu.Unlock()
+	if err := s.before(ctx, op); err != nil {
+		return err
+	}
+	if op.thread == 2 {
+		s.mu.Lock()
+		s.last2 = time.Now()
+		s.mu.Unlock()
+	}
+	return f()
 }
 
 func c16NewStore() *c16Store {
@@ -117,39 +196,30 @@ func (s *c16Store) before(ctx context.Context, op c16Op) error {
 	return nil
 }
 
-func (s *c16Store) List(ctx context.Context, prefix string) ([]string, error) {
-	if err := s.before(ctx, c16Op{kind: "list", key: prefix}); err != nil {
-		return nil, err
-	}
-	return s.inner.List(ctx, prefix)
+func (s *c16Store) List(ctx context.Context, prefix string) (res []string, err error) {
+	err = s.do(ctx, c16Op{kind: "list", key: prefix}, func() (e error) { res, e = s.inner.List(ctx, prefix); return })
+	return
 }
 
-func (s *c16Store) ListPage(ctx context.Context, prefix, after string, limit int) ([]string, error) {
-	if err := s.before(ctx, c16Op{kind: "list", key: prefix}); err != nil {
-		return nil, err
-	}
-	return s.inner.ListPage(ctx, prefix, after, limit)
+func (s *c16Store) ListPage(ctx context.Context, prefix, after string, limit int) (res []string, err error) {
+	err = s.do(ctx, c16Op{kind: "list", key: prefix, paged: true}, func() (e error) {
+		res, e = s.inner.ListPage(ctx, prefix, after, limit)
+		return
+	})
+	return
 }
 
-func (s *c16Store) Get(ctx context.Context, key string) (*logical.StorageEntry, error) {
-	if err := s.before(ctx, c16Op{kind: "get", key: key}); err != nil {
-		return nil, err
-	}
-	return s.inner.Get(ctx, key)
+func (s *c16Store) Get(ctx context.Context, key string) (res *logical.StorageEntry, err error) {
+	err = s.do(ctx, c16Op{kind: "get", key: key}, func() (e error) { res, e = s.inner.Get(ctx, key); return })
+	return
 }
 
 func (s *c16Store) Put(ctx context.Context, e *logical.StorageEntry) error {
-	if err := s.before(ctx, c16Op{kind: "put", key: e.Key, value: append([]byte(nil), e.Value...)}); err != nil {
-		return err
-	}
-	return s.inner.Put(ctx, e)
+	return s.do(ctx, c16Op{kind: "put", key: e.Key, value: append([]byte(nil), e.Value...)}, func() error { return s.inner.Put(ctx, e) })
 }
 
 func (s *c16Store) Delete(ctx context.Context, key string) error {
-	if err := s.before(ctx, c16Op{kind: "del", key: key}); err != nil {
-		return err
-	}
-	return s.inner.Delete(ctx, key)
+	return s.do(ctx, c16Op{kind: "del", key: key}, func() error { return s.inner.Delete(ctx, key) })
 }
 
 // ---------------------------------------------------------------- environment
@@ -522,21 +592,28 @@ func c16ErrClass(resp *logical.Response, err error) string {
 	return "err:other:" + vh.HexS(msg)
 }
 
-func (e *c16Env) addIssuer() {
+func (e *c16Env) addIssuerReq() (*logical.Response, error) {
+	n := len(e.issuers) + 1
+	return e.req(logical.UpdateOperation, "root/generate/exported", map[string]any{
+		"common_name": "root" + strconv.Itoa(n), "issuer_name": "i" + strconv.Itoa(n), "ttl": "40h", "key_type": "ec", "key_bits": 256,
+	})
+}
+
+func (e *c16Env) ensureRole() {
+	if len(e.issuers) == 1 {
+		if _, err := e.req(logical.UpdateOperation, "roles/r", map[string]any{"allow_any_name": true, "ttl": "1h", "max_ttl": "2h", "key_type": "ec", "key_bits": 256}); err != nil {
+			e.t.Fatal(err)
+		}
+	}
+}
+
+func (e *c16Env) addIssuerRegister(resp *logical.Response) int {
 	n := len(e.issuers) + 1
 	name := "i" + strconv.Itoa(n)
-	e.store.arm(0, -1)
-	resp, err := e.req(logical.UpdateOperation, "root/generate/exported", map[string]any{
-		"common_name": "root" + strconv.Itoa(n), "issuer_name": name, "ttl": "40h", "key_type": "ec", "key_bits": 256,
-	})
-	ops := e.store.disarm()
-	if ec := c16ErrClass(resp, err); ec != "" {
-		e.emit(ec, "addissuer")
-		return
-	}
 	is := &c16Issuer{ord: n, name: name, ref: name, live: true}
 	is.id = fmt.Sprint(resp.Data["issuer_id"])
 	blk, _ := pem.Decode([]byte(resp.Data["certificate"].(string)))
+	var err error
 	is.cert, err = x509.ParseCertificate(blk.Bytes)
 	if err != nil {
 		e.t.Fatal(err)
@@ -550,11 +627,19 @@ func (e *c16Env) addIssuer() {
 		e.t.Fatal(err)
 	}
 	e.issuers = append(e.issuers, is)
-	if len(e.issuers) == 1 {
-		if _, err := e.req(logical.UpdateOperation, "roles/r", map[string]any{"allow_any_name": true, "ttl": "1h", "max_ttl": "2h", "key_type": "ec", "key_bits": 256}); err != nil {
-			e.t.Fatal(err)
-		}
+	return n
+}
+
+func (e *c16Env) addIssuer() {
+	e.store.arm(0, -1)
+	resp, err := e.addIssuerReq()
+	ops := e.store.disarm()
+	if ec := c16ErrClass(resp, err); ec != "" {
+		e.emit(ec, "addissuer")
+		return
 	}
+	n := e.addIssuerRegister(resp)
+	e.ensureRole()
 	e.emit(fmt.Sprintf("ok:i%d w=%s", n, c16Join(c16Canon(e.tokens(ops)))), "addissuer")
 }
 
@@ -644,12 +729,8 @@ func (e *c16Env) craft(i int, class string) {
 // importIssuer builds, outside the mount, a self-signed CA certificate with its own key and imports it with
 // issuers/import/bundle.  col = 0: a fresh serial number; col = k: the CA's own certificate carries the serial
 // number of certificate #k (what an external parent with its own serial counter may well hand out).
-func (e *c16Env) importIssuer(col int) {
-	fields := []string{"importissuer", strconv.Itoa(col)}
-	if col < 0 || col > len(e.certs) {
-		e.emit("bad-op", fields...)
-		return
-	}
+// importBuild builds the external CA (col as in importIssuer) and returns its PEM bundle and the issuer record.
+func (e *c16Env) importBuild(col int) (string, *c16Issuer) {
 	n := len(e.issuers) + 1
 	key, err := ecdsa.GenerateKey(elliptic.P256(), rand.Reader)
 	if err != nil {
@@ -679,6 +760,29 @@ func (e *c16Env) importIssuer(col int) {
 	}
 	bundle := string(pem.EncodeToMemory(&pem.Block{Type: "CERTIFICATE", Bytes: der})) +
 		string(pem.EncodeToMemory(&pem.Block{Type: "EC PRIVATE KEY", Bytes: kder}))
+	is := &c16Issuer{ord: n, key: key, live: true}
+	is.cert, _ = x509.ParseCertificate(der)
+	return bundle, is
+}
+
+// importRegister completes the issuer record from the import response; "" when the response is not as expected.
+func (e *c16Env) importRegister(is *c16Issuer, resp *logical.Response) string {
+	ids, _ := resp.Data["imported_issuers"].([]string)
+	if len(ids) != 1 {
+		return "err:import:" + strconv.Itoa(len(ids))
+	}
+	is.ref, is.id = ids[0], ids[0]
+	e.issuers = append(e.issuers, is)
+	return ""
+}
+
+func (e *c16Env) importIssuer(col int) {
+	fields := []string{"importissuer", strconv.Itoa(col)}
+	if col < 0 || col > len(e.certs) {
+		e.emit("bad-op", fields...)
+		return
+	}
+	bundle, is := e.importBuild(col)
 	e.store.arm(0, -1)
 	resp, rerr := e.req(logical.UpdateOperation, "issuers/import/bundle", map[string]any{"pem_bundle": bundle})
 	ops := e.store.disarm()
@@ -686,21 +790,13 @@ func (e *c16Env) importIssuer(col int) {
 		e.emit(ec, fields...)
 		return
 	}
-	ids, _ := resp.Data["imported_issuers"].([]string)
-	if len(ids) != 1 {
-		e.emit("err:import:"+strconv.Itoa(len(ids)), fields...)
+	if ec := e.importRegister(is, resp); ec != "" {
+		e.emit(ec, fields...)
 		return
 	}
-	is := &c16Issuer{ord: n, name: "", ref: ids[0], id: ids[0], key: key, live: true}
-	is.cert, _ = x509.ParseCertificate(der)
-	e.issuers = append(e.issuers, is)
-	if len(e.issuers) == 1 {
-		if _, err := e.req(logical.UpdateOperation, "roles/r", map[string]any{"allow_any_name": true, "ttl": "1h", "max_ttl": "2h", "key_type": "ec", "key_bits": 256}); err != nil {
-			e.t.Fatal(err)
-		}
-	}
+	e.ensureRole()
 	// the tokens of the import are rendered only now that the new issuer is known to the environment
-	e.emit(fmt.Sprintf("ok:i%d w=%s", n, c16Join(c16Canon(e.tokens(ops)))), fields...)
+	e.emit(fmt.Sprintf("ok:i%d w=%s", is.ord, c16Join(c16Canon(e.tokens(ops)))), fields...)
 }
 
 // cut: "" none; "fault" (n-th storage op fails once); "crash" (storage dies after j effective writes, restart)
@@ -775,30 +871,32 @@ func (e *c16Env) revoke(k int, mode string, cut c16Cut) (int, int) {
 	}
 	n, w := e.runCut(cut, fields, func() (*logical.Response, error) {
 		return e.req(logical.UpdateOperation, "revoke", data)
-	}, func(resp *logical.Response) string {
-		if resp == nil {
-			return "ok:nil"
-		}
-		if st, ok := resp.Data["state"]; ok && st == "revoked" {
-			ts, _ := resp.Data["revocation_time_rfc3339"].(string)
-			t, perr := time.Parse(time.RFC3339Nano, ts)
-			stamp := -1
-			if perr == nil {
-				stamp = e.stampOf(c16Hyphen(c.serial), t)
-			}
-			return fmt.Sprintf("ok:revoked:t%d", stamp)
-		}
-		for _, w := range resp.Warnings {
-			if strings.Contains(w, "already expired; refusing to add to CRL") {
-				return "ok:expired"
-			}
-		}
-		return "ok:other"
-	})
+	}, func(resp *logical.Response) string { return e.revokeOk(c, resp) })
 	if e.realRevokeExpired(c) != wantExp {
 		e.anomaly = "revoke-expiry-after"
 	}
 	return n, w
+}
+
+func (e *c16Env) revokeOk(c *c16Cert, resp *logical.Response) string {
+	if resp == nil {
+		return "ok:nil"
+	}
+	if st, ok := resp.Data["state"]; ok && st == "revoked" {
+		ts, _ := resp.Data["revocation_time_rfc3339"].(string)
+		t, perr := time.Parse(time.RFC3339Nano, ts)
+		stamp := -1
+		if perr == nil {
+			stamp = e.stampOf(c16Hyphen(c.serial), t)
+		}
+		return fmt.Sprintf("ok:revoked:t%d", stamp)
+	}
+	for _, w := range resp.Warnings {
+		if strings.Contains(w, "already expired; refusing to add to CRL") {
+			return "ok:expired"
+		}
+	}
+	return "ok:other"
 }
 
 func (e *c16Env) rotate(cut c16Cut) (int, int) {
@@ -810,6 +908,214 @@ func (e *c16Env) rotate(cut c16Cut) (int, int) {
 		}
 		return "ok:other"
 	})
+}
+
+// ---------------------------------------------------------------- concurrent cases
+
+func (s *c16Store) setG2(id int64) {
+	s.mu.Lock()
+	defer s.mu.Unlock()
+	s.g2, s.last2 = id, time.Now()
+}
+
+func (s *c16Store) lastOp2() time.Time {
+	s.mu.Lock()
+	defer s.mu.Unlock()
+	return s.last2
+}
+
+func (e *c16Env) issuerOrdByID(id string) int {
+	for _, is := range e.issuers {
+		if is.id == id {
+			return is.ord
+		}
+	}
+	return 0
+}
+
+func c16StepFields(st c16Step) []string {
+	f := []string{st.op}
+	for _, x := range []string{st.a, st.b, st.c} {
+		if x != "" {
+			f = append(f, x)
+		}
+	}
+	return f
+}
+
+// conc runs request r1 (thread 1: issuer delete / generate / import, config/crl, tidy — all rebuild the CRLs outside
+// revokeStorageLock) against `revoke k` (thread 2) on the same backend.  The storage wrapper is the scheduler: thread 1
+// is parked before its parkAt-th storage operation, thread 2 runs until it finishes or makes no storage operation for
+// 30 ms (blocked on a lock), then thread 1 is released and both run to the end.  Every storage operation is atomic and
+// recorded in global order with its thread; the emitted schedule is that order restricted to effective writes, issuer
+// entry creation/deletion and each build's listing of revoked/ ("L").
+func (e *c16Env) conc(r1 c16Step, k int, mode string, parkAt int) {
+	fields := append([]string{"conc"}, c16StepFields(r1)...)
+	fields = append(fields, "|", "revoke", strconv.Itoa(k), mode, "|")
+	if k < 1 || k > len(e.certs) {
+		e.emit("bad-op", append(fields, "-")...)
+		return
+	}
+	c := e.certs[k-1]
+	atoi := func(x string) int { n, _ := strconv.Atoi(x); return n }
+	var bundle string
+	var newIs *c16Issuer
+	if r1.op == "importissuer" {
+		bundle, newIs = e.importBuild(0)
+	}
+	e.store.armConc(parkAt)
+	var resp1, resp2 *logical.Response
+	var err1, err2 error
+	done1, done2 := make(chan struct{}), make(chan struct{})
+	go func() {
+		defer close(done1)
+		resp1, err1 = e.r1Call(r1, bundle)
+	}()
+	timeout := ""
+	select {
+	case <-e.store.parked:
+	case <-done1:
+	case <-time.After(30 * time.Second):
+		timeout = "timeout:r1-start"
+	}
+	data := map[string]any{"serial_number": c.serial}
+	if mode == "cert" {
+		data = map[string]any{"certificate": c.pem}
+	}
+	go func() {
+		defer close(done2)
+		e.store.setG2(c16Goid())
+		resp2, err2 = e.req(logical.UpdateOperation, "revoke", data)
+	}()
+	start := time.Now()
+wait2:
+	for {
+		select {
+		case <-done2:
+			break wait2
+		default:
+		}
+		if time.Since(start) > 30*time.Millisecond && time.Since(e.store.lastOp2()) > 30*time.Millisecond {
+			break
+		}
+		time.Sleep(500 * time.Microsecond)
+	}
+	close(e.store.release)
+	for _, ch := range []chan struct{}{done1, done2} {
+		select {
+		case <-ch:
+		case <-time.After(30 * time.Second):
+			timeout = "timeout:deadlock"
+		}
+	}
+	ops := e.store.disarmConc()
+	if timeout != "" {
+		e.emit(timeout, append(fields, "-")...)
+		e.anomaly = timeout
+		return
+	}
+	// the other request's bookkeeping in the environment
+	r1res := c16ErrClass(resp1, err1)
+	newOrd := 0
+	if r1res == "" {
+		r1res = "ok"
+		switch r1.op {
+		case "addissuer":
+			newOrd = e.addIssuerRegister(resp1)
+			r1res = "ok:i" + strconv.Itoa(newOrd)
+		case "importissuer":
+			if ec := e.importRegister(newIs, resp1); ec != "" {
+				r1res = ec
+			} else {
+				newOrd = newIs.ord
+				r1res = "ok:i" + strconv.Itoa(newOrd)
+			}
+		case "delissuer":
+			if i := atoi(r1.a); i >= 1 && i <= len(e.issuers) {
+				e.issuers[i-1].live = false
+			}
+		}
+	}
+	var ev []string
+	seenNew := false
+	for _, op := range ops {
+		if op.thread == 0 {
+			continue
+		}
+		pre := strconv.Itoa(op.thread) + ":"
+		switch {
+		case op.kind == "list" && op.key == "revoked/" && !op.paged:
+			ev = append(ev, pre+"L")
+		case strings.HasPrefix(op.key, "config/issuer/") && op.key != "config/issuer/":
+			ord := e.issuerOrdByID(strings.TrimPrefix(op.key, "config/issuer/"))
+			if op.kind == "del" && !op.noop && ord > 0 {
+				ev = append(ev, pre+"x"+strconv.Itoa(ord))
+			}
+			if op.kind == "put" && ord > 0 && ord == newOrd && !seenNew {
+				seenNew = true
+				ev = append(ev, pre+"n"+strconv.Itoa(ord))
+			}
+		default:
+			if t, ok := e.token(op); ok {
+				ev = append(ev, pre+t.s)
+			}
+		}
+	}
+	r2res := c16ErrClass(resp2, err2)
+	if r2res == "" {
+		r2res = e.revokeOk(c, resp2)
+	}
+	sched := "-"
+	if len(ev) > 0 {
+		sched = strings.Join(ev, " ")
+	}
+	e.emit("r1="+r1res+" r2="+r2res, append(fields, sched)...)
+}
+
+// r1Call issues the other request of a concurrent case (no bookkeeping, no output).
+func (e *c16Env) r1Call(r1 c16Step, bundle string) (resp *logical.Response, err error) {
+	atoi := func(x string) int { n, _ := strconv.Atoi(x); return n }
+	switch r1.op {
+	case "delissuer":
+		ref := "i" + r1.a
+		if i := atoi(r1.a); i >= 1 && i <= len(e.issuers) {
+			ref = e.issuers[i-1].ref
+		}
+		return e.req(logical.DeleteOperation, "issuer/"+ref, nil)
+	case "addissuer":
+		return e.addIssuerReq()
+	case "importissuer":
+		return e.req(logical.UpdateOperation, "issuers/import/bundle", map[string]any{"pem_bundle": bundle})
+	case "config":
+		data := map[string]any{}
+		for name, v := range map[string]string{"auto_rebuild": r1.a, "disable": r1.b, "allow_expired_cert_revocation": r1.c} {
+			if v == "1" {
+				data[name] = true
+			} else if v == "0" {
+				data[name] = false
+			}
+		}
+		return e.req(logical.UpdateOperation, "config/crl", data)
+	case "tidy":
+		resp, err = e.req(logical.UpdateOperation, "tidy", map[string]any{
+			"tidy_cert_store": r1.a == "1", "tidy_revoked_certs": r1.b == "1", "tidy_revoked_cert_issuer_associations": r1.c == "1", "safety_buffer": 1,
+		})
+		deadline := time.Now().Add(30 * time.Second)
+		for e.b.tidyCASGuard.Load() && time.Now().Before(deadline) {
+			time.Sleep(200 * time.Microsecond)
+		}
+		return resp, err
+	}
+	return nil, errors.New("c16: unknown concurrent request")
+}
+
+// concProbe runs the other request alone (dry run on a throw-away environment).
+func (e *c16Env) concProbe(r1 c16Step) {
+	bundle := ""
+	if r1.op == "importissuer" {
+		bundle, _ = e.importBuild(0)
+	}
+	_, _ = e.r1Call(r1, bundle)
 }
 
 func c16B(b bool) string {
@@ -1391,6 +1697,100 @@ func TestVerifC16(t *testing.T) {
 		}
 		for j := 0; j <= nwrites; j++ {
 			cases = append(cases, mk(c16Cut{kind: "crash", n: j}))
+		}
+	}
+
+	// stream 4 (concurrency): one request that rebuilds the CRLs outside revokeStorageLock against one revoke, parked
+	// at its first storage operation and at every storage operation from the start of its CRL build to its end
+	nConc := vh.EnvInt("C16_CONC", 10)
+	if thorough {
+		nConc = vh.EnvInt("C16_CONC", 60)
+	}
+	for i := 0; i < nConc; i++ {
+		r := rng.Fork(uint64(3000000 + i))
+		prefix := c16History(r, 2+r.Intn(6), thorough, false)
+		nIss := 0
+		for _, st := range prefix {
+			if st.op == "addissuer" || st.op == "importissuer" {
+				nIss++
+			}
+		}
+		nIss++
+		prefix = append(prefix, c16Step{op: "addissuer"})
+		if r.Chance(80) {
+			prefix = append(prefix, c16Step{op: "config", a: "0", b: "0", c: "1"})
+		}
+		var r1 c16Step
+		switch i % 5 {
+		case 0:
+			// delete another issuer when there is one (the target's own otherwise)
+			r1 = c16Step{op: "delissuer", a: strconv.Itoa(1 + r.Intn(nIss))}
+		case 1:
+			r1 = c16Step{op: "addissuer"}
+		case 2:
+			r1 = c16Step{op: "importissuer", a: "0"}
+		case 3:
+			r1 = c16Step{op: "config", a: "0", b: c16B(r.Chance(25)), c: "-"}
+			prefix = append(prefix, c16Step{op: "config", a: "1", b: "-", c: "-"}) // auto-rebuild on -> off triggers the rebuild
+		case 4:
+			r1 = c16Step{op: "tidy", a: c16B(r.Chance(30)), b: "1", c: c16B(r.Chance(30))}
+			// an expired revoked entry for tidy to remove, so that it rebuilds
+			prefix = append(prefix, c16Step{op: "config", a: "-", b: "-", c: "1"}, c16Step{op: "craft", a: strconv.Itoa(nIss), b: "X"})
+		}
+		mode := "serial"
+		if r.Chance(25) {
+			mode = "cert"
+		}
+		tidyCase := i%5 == 4
+		target := c16Step{op: "issue", a: strconv.Itoa(nIss), b: "L"}
+		// dry run: the other request alone, to find its storage operations from the start of its CRL build
+		probe := c16NewEnv(t)
+		setup := func(e *c16Env) int {
+			for _, st := range prefix {
+				e.apply(st)
+			}
+			if tidyCase {
+				e.revoke(len(e.certs), "cert", c16Cut{})
+				e.obs()
+			}
+			e.apply(target)
+			return len(e.certs)
+		}
+		k := setup(probe)
+		probe.store.armConc(0)
+		done := make(chan struct{})
+		go func() { defer close(done); probe.concProbe(r1) }()
+		<-done
+		pops := probe.store.disarmConc()
+		probe.b.Cleanup(context.Background())
+		listAt, startAt := 0, 0
+		for j, op := range pops {
+			if op.kind == "list" && op.key == "revoked/" && !op.paged && listAt == 0 {
+				listAt = j + 1
+			}
+		}
+		for j := 0; j < listAt; j++ {
+			if pops[j].kind == "list" && pops[j].key == "config/issuer/" {
+				startAt = j + 1
+			}
+		}
+		positions := []int{1}
+		if startAt > 0 {
+			for j := startAt; j <= len(pops)+1; j++ {
+				positions = append(positions, j)
+			}
+		} else {
+			positions = append(positions, len(pops)+1)
+		}
+		for _, pk := range positions {
+			pk := pk
+			cases = append(cases, func(e *c16Env) {
+				setup(e)
+				e.conc(r1, k, mode, pk)
+				e.obs()
+				e.rotate(c16Cut{})
+				e.obs()
+			})
 		}
 	}
 
